@@ -174,7 +174,9 @@ def gen_config(rng):
     if source == "cli":
         cfg["cli"] = flagset()
     elif source == "env":
-        cfg["env_flags"] = flagset()
+        # an empty value (INLINE_SNAPSHOT_DEFAULT_FLAGS="") is not a flag list: the plugin answers with a usage
+        # error for the flag '' - nothing is written, so it is irrelevant for this property and not generated
+        cfg["env_flags"] = flagset() or None
     elif source == "pyproject":
         cfg["py_default"] = flagset()
         cfg["has_pyproject"] = True
